@@ -36,6 +36,20 @@ def arithmetic_axioms(M, t):
         patterns=[s])]
 
 
+def range_axioms(M, t):
+    """the unconditional range postconditions of the four formulas, for all sizes in the domain"""
+    if M not in SETM:
+        return []
+    x, y = ints('x!R y!R')
+    ok = z3.And(x >= 0, x <= S.MAXTOK, t > 0, t <= 1)
+    return [z3.ForAll([x], z3.Implies(ok, z3.And(S.lbnd[M](x, t) >= 0, S.lbnd[M](x, t) <= x)), patterns=[S.lbnd[M](x, t)]),
+            z3.ForAll([x], z3.Implies(z3.And(ok, t >= rv(Fraction(1, 2 ** 400))), S.ubnd[M](x, t) >= x),
+                      patterns=[S.ubnd[M](x, t)]),
+            z3.ForAll([x], z3.Implies(ok, z3.If(x == 0, S.plen[M](x, t) == 0,
+                                                z3.And(S.plen[M](x, t) >= 1, S.plen[M](x, t) <= x + 1))),
+                      patterns=[S.plen[M](x, t)])]
+
+
 JUSTIFIED_BY = ['filter_utils.get_size_lower_bound/*/post/admits-required-*',
                 'filter_utils.get_size_upper_bound/*/post/admits-required-*',
                 'filter_utils.get_prefix_length/*/post/prefix-condition-*',
